@@ -1,1 +1,65 @@
-(* C14 *)
+(* C14 - sink failures propagate and the output is always a prefix.  Theorems only. *)
+From Coq Require Import Lia.
+From Ructe Require Import Nom Utf8 TemplateExpr Template Emit Tables Io IoProofs Exec ExecProofs EmitProofs.
+Local Open Scope list_scope.
+
+Section C14.
+  Variable env : Type.
+  Variable o : oracle env.
+
+  (* every statement list ructe can emit (any template body: text, expressions incl. Html(..) and
+     buffers, for / if / match at any nesting, calls and block arguments), every oracle for the
+     embedded Rust fragments, every sink schedule (accept any number of bytes per call,
+     Interrupted, permanent failure at any point): what the sink accepted is a prefix of the
+     full rendering, and all of it when the function returns Ok *)
+  Theorem exec_prefix : forall fuel e cs (items : list texpr) (s s' : sink) (r : outcome) (full : bytes),
+    exec env o fuel e cs items s = (s', r) -> render env o fuel e cs items = Some full ->
+    exists p, log s' = log s ++ p /\ prefix p full /\ (r = Done -> p = full).
+  Proof.
+    intros fuel e cs items s s' r full H R. destruct (exec_Pre env o fuel e cs items s s' r H) as [p [L C]].
+    rewrite R in C. exists p. tauto.
+  Qed.
+
+  (* sinks that only accept part of each write, or report Interrupted, do not change the output:
+     on a schedule without a permanent failure the function returns Ok and the sink got everything *)
+  Theorem exec_partial_interrupt_invariant : forall fuel e cs items s s' r full,
+    exec env o fuel e cs items s = (s', r) -> render env o fuel e cs items = Some full ->
+    no_fault (sched s) -> r <> OutOfFuel -> r = Done /\ log s' = log s ++ full /\ no_fault (sched s').
+  Proof.
+    intros fuel e cs items s s' r full H R F NF0.
+    destruct (exec_NF env o fuel e cs items s s' r H F) as [[Rd|Rf] F']; [|congruence].
+    destruct (exec_prefix fuel e cs items s s' r full H R) as [p [L [_ D]]]. rewrite (D Rd) in L. tauto.
+  Qed.
+
+  (* the first statement that fails ends the function with that result: nothing after it runs *)
+  Theorem exec_error_propagates : forall (a k : sink -> sink * outcome) s s1 x,
+    a s = (s1, Failed x) -> seq a k s = (s1, Failed x).
+  Proof. intros a k s s1 x H. unfold seq. now rewrite H. Qed.
+End C14.
+
+(* the error returned is the sink's own: a write_all fails only with what `write` returned, or
+   with WriteZero when the sink accepted nothing *)
+Theorem sink_error_is_returned : forall fuel s d s' e,
+  write_all sink_write fuel s d = (s', Failed e) ->
+  (e = WriteZero /\ In (Accept 0) (sched s)) \/ (exists c, e = Io c /\ In (Fail c) (sched s)).
+Proof. exact write_all_error_from_sink. Qed.
+
+(* the `?` of the semantics is in the emitted text: every leaf statement ends in `?;`, blocks are
+   made of such statements, closures end in Ok(()) and so does the function *)
+Theorem question_marks_present : forall (ue : N -> bool),
+  (forall t, ends_q (write_code ue (TText t))) /\
+  (forall e, write_code ue (TExpr e) = e ++ b ".to_html(_ructe_out_.by_ref())?;" ++ nl) /\
+  (forall name args, write_code ue (TCall name args) = name ++ b "(_ructe_out_.by_ref()" ++ args_text ue args ++ b ")?;" ++ nl) /\
+  (forall x v, arg_text ue (ABody (x :: v)) =
+     b "#[allow(clippy::used_underscore_binding)] |mut _ructe_out_| {" ++ nl ++ codes ue (x :: v) ++ b "Ok(())" ++ nl ++ b "}" ++ nl) /\
+  (forall t name, exists pre, write_rust ue t name = pre ++ codes ue (body t) ++ b "Ok(())" ++ nl ++ b "}" ++ nl).
+Proof.
+  intros ue. split; [intros t; apply text_code_q|]. split; [reflexivity|]. split; [apply write_code_call|]. split; [reflexivity|].
+  intros t name. exists (write_rust_head t name). apply write_rust_split.
+Qed.
+
+Redirect "assumptions/C14.exec_prefix" Print Assumptions exec_prefix.
+Redirect "assumptions/C14.exec_partial_interrupt_invariant" Print Assumptions exec_partial_interrupt_invariant.
+Redirect "assumptions/C14.exec_error_propagates" Print Assumptions exec_error_propagates.
+Redirect "assumptions/C14.sink_error_is_returned" Print Assumptions sink_error_is_returned.
+Redirect "assumptions/C14.question_marks_present" Print Assumptions question_marks_present.
